@@ -385,8 +385,8 @@ def r6(ctx):
             want_ok = all(":parked" in g and ":who-is-router" in g and "dadr=apdu.pduDestination" in g for g in got) and bool(got)
             desc = "parked under its network and Who-Is-Router asked"
         ctx.check("indication:remote[known=%s,pending=%s]" % (known, pending), want_ok, where(m, f), "a packet for another network must be %s; the code does %s" % (desc, sorted(got)))
-    who_loop = [l for l in walk_shallow(f) if isinstance(l, ast.For) and "adapters" in norm(l.iter) and any(norm(x.func) == "self.sap_indication" for x in calls_in(l))]
-    ctx.check("indication:who-is-router-on-every-adapter", len(who_loop) == 1 and not [x for x in facts_at([x for x in calls_in(who_loop[0]) if norm(x.func) == "self.sap_indication"][0], stop=who_loop[0])] if who_loop else False,
+    who_loop = [l for l in walk_shallow(f) if isinstance(l, ast.For) and "adapters" in norm(l.iter) and any(norm(x.func) == "self.sap_indication" for st_ in l.body for x in calls_in(st_))]
+    ctx.check("indication:who-is-router-on-every-adapter", len(who_loop) == 1 and not [x for x in facts_at([x for st_ in who_loop[0].body for x in calls_in(st_) if norm(x.func) == "self.sap_indication"][0], stop=who_loop[0])] if who_loop else False,
               where(m, f), "path discovery must ask on every adapter")
     # release of parked packets
     nse = prog.cls(MOD, "NetworkServiceElement")
